@@ -104,6 +104,14 @@ CLAIMED = {
             "Bounds: shapes up to 2x3/3x3 (quick) and 4x4 (thorough, fit_to_range), elements {number, logical, blank, text, error}, ints |v|<=9; numpy never coerces CrossHair proxies, so array-wide "
             "dtype coercion is probed with concrete mixed-type arrays against a symbolic scalar.",
             "DESIGN.md 4/C13"),
+    "C02": ("translation_validation",
+            "translation validation: real tokenizer/RPN/AST/emit/compile pipeline per enumerated formula, compiled lambda executed symbolically (CrossHair+z3) against a reference-grammar term, operators uninterpreted or real",
+            "Each enumerated formula text is compiled by the real pipeline; with the operator semantics replaced by a free constructor the compiled lambda must denote the same term as the reference "
+            "parse for symbolic leaves (decides precedence, associativity, parentheses, unary minus, postfix %), and with the real fixup the same value; text literals: OperandNode.emit on a symbolic "
+            "text token decoded by a validated model of Python string escapes must give back exactly the characters.",
+            "Bounds: all 144 two-operator strings, unary/postfix variants, parenthesisations, whitespace/function-case renderings (quick); all 1728 three-operator strings and seed-sampled depth 4 (thorough); "
+            "text len<=3 over all Unicode; the oracle is vf/refgrammar.py.",
+            "DESIGN.md 4/C02"),
 }
 
 NOT_YET = "check not built yet in this round (machinery under construction); see DESIGN.md section 4"
